@@ -5,7 +5,7 @@
 #   ./mutants.sh prefix <commit>                           check out <commit>^ and run the directed scenarios
 #   ./mutants.sh clean                                     remove the scratch area
 set -u
-S=/tmp/verif_mut
+S=${S:-/tmp/verif_mut}
 MODE="$1"; shift
 if [ "$MODE" = clean ]; then
   git -C /repo worktree remove --force $S/wt 2>/dev/null; rm -rf $S; git -C /repo worktree prune; exit 0
